@@ -1,31 +1,41 @@
-"""`actor/_actor.py` + `actor/_background_service.py` -> Lean constants and decision tables for C10.
+"""`actor/_actor.py`, `actor/_background_service.py`, `_internal/_asyncio.py` -> Lean constants and decision tables (C10).
 
-Extracted (pure `ast`; raises when the source no longer has the expected shape):
+Extracted (pure `ast`; raises when the source no longer has a shape whose meaning it can read):
   * `RESTART_DELAY` (µs) and the default of `_restart_limit`;
-  * the test that guards the restart in `_run_loop` (`self._restart_limit is None or n_restarts < …`)
-    and the test of `_delay_if_restart` (`iteration > 0`), translated to Lean `Bool` functions;
-  * the `except` clauses of the `try` in `_run_loop`, in source order, each with what it does
-    (`reraise` | `restartOrReraise`); a normal return of `_run()` must be followed by `break`;
-  * what `Actor.start()` does (guard on `is_running`, clear, add one task);
-  * the shape of `BackgroundService.wait()/stop()`: whether the exception group is raised inside the
-    batch loop (per batch) or after it (all rounds), and whether `stop()` cancels once or in every round;
-  * `_internal/_asyncio.cancel_and_await`: the early-return guard as a Lean function of (`task.done()`,
-    `task.cancelling()`), whether it calls `task.cancel()`, and that `await task` swallows only `CancelledError`.
+  * `_delay_if_restart`: the condition under which the delay is awaited, as a Lean `Bool` function of the iteration;
+  * `_run_loop`: the `except` clauses in source order, what each does (`reraise` | `restartOrReraise`), and the
+    condition under which the restarting clause restarts, as a Lean `Bool` function of (limit, counter);
+  * `Actor.start()`: guarded by `is_running`?;
+  * `BackgroundService.wait()/stop()`: exception group raised per batch or after all rounds; `stop()` cancels at the
+    call / in every round; `stop()` re-raises the group minus `CancelledError`;
+  * `cancel_and_await`: its early-return condition as a Lean function of (`task.done()`, `task.cancelling()`), the
+    `task.cancel()` call, the swallowed `CancelledError`.
+
+Code is located by ROLE, not by position or by the names of locals.  Every function body is normalised first:
+docstrings / logging calls / `pass` dropped; locals that only feed log messages removed; single-assignment locals
+inlined (also `_, rest = g.split(E)` as `g.split(E)[1]`); guard clauses (`if c: return|raise|continue|break`) turned
+into `if c: … else: <rest>`; `try … else: X` into `try …; X` when every handler leaves.  Conditions are then read off
+the PATHS through the if-tree (a condition is the disjunction, over the paths that reach the action, of the conjunction
+of the signed tests on the path), so inverted branches and early returns translate to equivalent Lean terms.
 """
 from __future__ import annotations
 
 import ast
+import copy
 import pathlib
 
 NAME = "Actor"
 SOURCES = ["src/frequenz/sdk/actor/_actor.py", "src/frequenz/sdk/actor/_background_service.py",
            "src/frequenz/sdk/_internal/_asyncio.py"]
 
+PURE_CALLS = {"split", "total_seconds", "difference"}
+
 
 class Bad(Exception):
     pass
 
 
+# ----------------------------------------------------------------------------- locating
 def _cls(tree: ast.Module, name: str) -> ast.ClassDef:
     for n in tree.body:
         if isinstance(n, ast.ClassDef) and n.name == name:
@@ -33,57 +43,301 @@ def _cls(tree: ast.Module, name: str) -> ast.ClassDef:
     raise Bad(f"class {name} not found")
 
 
-def _fn(cls: ast.ClassDef, name: str) -> ast.AsyncFunctionDef | ast.FunctionDef:
-    for n in cls.body:
+def _fn(scope: ast.ClassDef | ast.Module, name: str) -> ast.AsyncFunctionDef | ast.FunctionDef:
+    for n in scope.body:
         if isinstance(n, (ast.FunctionDef, ast.AsyncFunctionDef)) and n.name == name:
             return n
-    raise Bad(f"{cls.name}.{name} not found")
+    raise Bad(f"{getattr(scope, 'name', 'module')}.{name} not found")
 
 
-def _strip(body: list[ast.stmt]) -> list[ast.stmt]:
-    """Drop docstrings, logging calls and `limit_str = …` bookkeeping (no effect on control flow)."""
-    out = []
-    for s in body:
-        if isinstance(s, ast.Expr) and isinstance(s.value, ast.Constant) and isinstance(s.value.value, str):
-            continue
-        if isinstance(s, ast.Expr) and isinstance(s.value, ast.Call) and ast.unparse(s.value.func).startswith("_logger."):
-            continue
-        if isinstance(s, ast.Assign) and len(s.targets) == 1 and ast.unparse(s.targets[0]) == "limit_str":
-            continue
-        out.append(s)
+def _u(n: ast.AST) -> str:
+    return ast.unparse(n)
+
+
+# ----------------------------------------------------------------------------- normalisation
+def _is_jump(s: ast.stmt) -> bool:
+    return isinstance(s, (ast.Return, ast.Raise, ast.Continue, ast.Break))
+
+
+def _is_noise(s: ast.stmt) -> bool:
+    if isinstance(s, ast.Pass):
+        return True
+    if isinstance(s, ast.Expr) and isinstance(s.value, ast.Constant):
+        return True  # docstring / bare constant
+    if isinstance(s, ast.Expr) and isinstance(s.value, ast.Call) and _u(s.value.func).startswith(("_logger.", "logging.", "print")):
+        return True
+    if isinstance(s, ast.Assert):
+        return True
+    return False
+
+
+def _map_blocks(s: ast.stmt, f) -> ast.stmt:
+    """Apply `f` (list[stmt] -> list[stmt]) to every nested statement list of `s`."""
+    for field in ("body", "orelse", "finalbody"):
+        if hasattr(s, field) and isinstance(getattr(s, field), list):
+            setattr(s, field, f(getattr(s, field)))
+    if isinstance(s, ast.Try):
+        for h in s.handlers:
+            h.body = f(h.body)
+    return s
+
+
+def _strip(stmts: list[ast.stmt]) -> list[ast.stmt]:
+    return [_map_blocks(s, _strip) for s in stmts if not _is_noise(s)]
+
+
+def _split_tuple_assign(stmts: list[ast.stmt]) -> list[ast.stmt]:
+    """`a, b = f(x)` (pure f, no await) -> `a = f(x)[0]; b = f(x)[1]`."""
+    out: list[ast.stmt] = []
+    for s in stmts:
+        s = _map_blocks(s, _split_tuple_assign)
+        if (isinstance(s, ast.Assign) and len(s.targets) == 1 and isinstance(s.targets[0], ast.Tuple)
+                and all(isinstance(e, ast.Name) for e in s.targets[0].elts) and isinstance(s.value, ast.Call)
+                and isinstance(s.value.func, ast.Attribute) and s.value.func.attr in PURE_CALLS):
+            for i, e in enumerate(s.targets[0].elts):
+                out.append(ast.Assign(targets=[ast.Name(id=e.id, ctx=ast.Store())],
+                                      value=ast.Subscript(value=copy.deepcopy(s.value), slice=ast.Constant(value=i), ctx=ast.Load()),
+                                      lineno=0))
+        else:
+            out.append(s)
     return out
+
+
+def _walk_stmts(stmts: list[ast.stmt]):
+    for s in stmts:
+        yield s
+        for field in ("body", "orelse", "finalbody"):
+            if isinstance(getattr(s, field, None), list):
+                yield from _walk_stmts(getattr(s, field))
+        if isinstance(s, ast.Try):
+            for h in s.handlers:
+                yield from _walk_stmts(h.body)
+
+
+def _simple_target(s: ast.stmt) -> str | None:
+    if isinstance(s, ast.Assign) and len(s.targets) == 1 and isinstance(s.targets[0], ast.Name):
+        return s.targets[0].id
+    if isinstance(s, ast.AnnAssign) and isinstance(s.target, ast.Name) and s.value is not None:
+        return s.target.id
+    return None
+
+
+def _has(node: ast.AST, kinds) -> bool:
+    return any(isinstance(n, kinds) for n in ast.walk(node))
+
+
+def _calls_only_pure(node: ast.AST) -> bool:
+    return all(isinstance(c.func, ast.Attribute) and c.func.attr in PURE_CALLS for c in ast.walk(node) if isinstance(c, ast.Call))
+
+
+class _Subst(ast.NodeTransformer):
+    def __init__(self, name: str, value: ast.expr):
+        self.name, self.value = name, value
+
+    def visit_Name(self, node: ast.Name):  # noqa: N802
+        if node.id == self.name and isinstance(node.ctx, ast.Load):
+            return copy.deepcopy(self.value)
+        return node
+
+
+def _drop_assign(stmts: list[ast.stmt], names: set[str], keep_effects: bool = False) -> list[ast.stmt]:
+    out = []
+    for s in stmts:
+        if _simple_target(s) in names:
+            if keep_effects and not _calls_only_pure(s.value):
+                out.append(ast.Expr(value=s.value))     # `_ = task.result()` still calls (and may raise)
+            continue
+        out.append(_map_blocks(s, lambda b: _drop_assign(b, names, keep_effects)))
+    return out
+
+
+def _terminates(block: list[ast.stmt]) -> bool:
+    if not block:
+        return False
+    last = block[-1]
+    if _is_jump(last):
+        return True
+    return isinstance(last, ast.If) and _terminates(last.body) and _terminates(last.orelse)
+
+
+def _simplify_locals(stmts: list[ast.stmt], params: set[str]) -> list[ast.stmt]:
+    """Remove locals that feed nothing but themselves (log strings), inline single-assignment locals."""
+    for _ in range(20):
+        allst = list(_walk_stmts(stmts))
+        # every way a name gets bound
+        bound: dict[str, int] = {}
+        for n in ast.walk(ast.Module(body=stmts, type_ignores=[])):
+            if isinstance(n, ast.Name) and isinstance(n.ctx, (ast.Store, ast.Del)):
+                bound[n.id] = bound.get(n.id, 0) + 1
+            if isinstance(n, ast.ExceptHandler) and n.name:
+                bound[n.name] = bound.get(n.name, 0) + 2
+            if isinstance(n, ast.AugAssign) and isinstance(n.target, ast.Name):
+                bound[n.target.id] = bound.get(n.target.id, 0) + 1
+        simple = {t for s in allst if (t := _simple_target(s)) and t not in params}
+        # 1. dead: never loaded outside assignments to dead names
+        dead = set(simple)
+        changed = True
+        while changed:
+            changed = False
+            for s in allst:
+                tgt = _simple_target(s)
+                nodes = [s.value] if (tgt in dead and tgt is not None) else None  # loads inside a dead assignment do not count
+                if nodes is not None:
+                    continue
+                own: list[ast.AST] = []
+                if isinstance(s, (ast.If, ast.While)):
+                    own = [s.test]
+                elif isinstance(s, ast.For):
+                    own = [s.iter]
+                elif isinstance(s, ast.Try):
+                    own = []
+                elif isinstance(s, ast.With):
+                    own = [i.context_expr for i in s.items]
+                else:
+                    own = [s]
+                for o in own:
+                    for n in ast.walk(o):
+                        if isinstance(n, ast.Name) and isinstance(n.ctx, ast.Load) and n.id in dead:
+                            dead.discard(n.id)
+                            changed = True
+        dead = {d for d in dead if all(not _has(s.value, ast.Await) for s in allst if _simple_target(s) == d)}
+        if dead:
+            stmts = _drop_assign(stmts, dead, keep_effects=True)
+            continue
+        # 2. inline one single-assignment local
+        done = False
+        for s in allst:
+            t = _simple_target(s)
+            if t is None or t in params or bound.get(t, 0) != 1 or _has(s.value, ast.Await):
+                continue
+            if isinstance(s.value, (ast.List, ast.Dict, ast.Set, ast.ListComp, ast.SetComp)) or _u(s.value) == "set()":
+                continue  # a container that is mutated later
+            uses = sum(1 for x in allst for n in ast.walk(x) if isinstance(n, ast.Name) and isinstance(n.ctx, ast.Load) and n.id == t)
+            # (walking nested statements counts a use once per enclosing statement: normalise by direct count)
+            uses = sum(1 for n in ast.walk(ast.Module(body=stmts, type_ignores=[])) if isinstance(n, ast.Name) and isinstance(n.ctx, ast.Load) and n.id == t)
+            if uses == 1 or _calls_only_pure(s.value):
+                stmts = _drop_assign(stmts, {t})
+                mod = ast.Module(body=stmts, type_ignores=[])
+                stmts = _Subst(t, s.value).visit(mod).body
+                done = True
+                break
+        if not done:
+            break
+    return stmts
+
+
+def _guards(stmts: list[ast.stmt]) -> list[ast.stmt]:
+    """`if c: …jump` followed by more statements -> `if c: …jump else: <rest>`;  `try … else: X` -> `try …; X`."""
+    out: list[ast.stmt] = []
+    i = 0
+    stmts = list(stmts)
+    while i < len(stmts):
+        s = _map_blocks(stmts[i], _guards)
+        rest = stmts[i + 1:]
+        if isinstance(s, ast.Try) and s.orelse and all(_terminates(h.body) for h in s.handlers):
+            moved, s.orelse = s.orelse, []
+            stmts = stmts[: i + 1] + moved + rest
+            rest = stmts[i + 1:]
+        if isinstance(s, ast.If) and rest:
+            if s.body and _is_jump(s.body[-1]) and not s.orelse:
+                s.orelse = _guards(rest)
+                out.append(s)
+                return out
+            if s.orelse and _is_jump(s.orelse[-1]) and not (s.body and _is_jump(s.body[-1])):
+                s.body = s.body + _guards(rest)
+                out.append(s)
+                return out
+        out.append(s)
+        i += 1
+    return out
+
+
+def _normalise(fn: ast.FunctionDef | ast.AsyncFunctionDef) -> list[ast.stmt]:
+    body = copy.deepcopy(fn.body)
+    params = {a.arg for a in fn.args.args + fn.args.kwonlyargs}
+    body = _strip(body)
+    body = _split_tuple_assign(body)
+    body = _simplify_locals(body, params)
+    body = _strip(body)
+    body = _guards(body)
+    return body
+
+
+def _paths(stmts: list[ast.stmt]) -> list[tuple[list[tuple[ast.expr, bool]], list[ast.stmt]]]:
+    """Paths through the if-tree: (signed tests, straight-line actions incl. the final jump)."""
+    if not stmts:
+        return [([], [])]
+    s, rest = stmts[0], stmts[1:]
+    if isinstance(s, ast.If):
+        out = []
+        test, flip = s.test, False
+        while isinstance(test, ast.UnaryOp) and isinstance(test.op, ast.Not):   # `if not c: A else: B` = `if c: B else: A`
+            test, flip = test.operand, not flip
+        for pol, branch in ((True, s.body), (False, s.orelse)):
+            lit = (test, pol != flip)
+            for c1, a1 in _paths(branch):
+                if a1 and _is_jump(a1[-1]):
+                    out.append(([lit] + c1, a1))
+                else:
+                    for c2, a2 in _paths(rest):
+                        out.append(([lit] + c1 + c2, a1 + a2))
+        return out
+    if _is_jump(s):
+        return [([], [s])]
+    return [(c, [s] + a) for c, a in _paths(rest)]
+
+
+def _dnf(paths: list[list[tuple[ast.expr, bool]]], tr) -> str:
+    """Lean Bool: OR over paths of AND of signed tests (`tr` translates one test)."""
+    if not paths:
+        return "false"
+    terms = []
+    for conds in paths:
+        if not conds:
+            return "true"
+        lits = [tr(e) if pol else f"(!{tr(e)})" for e, pol in conds]
+        terms.append("(" + " && ".join(lits) + ")")
+    return "(" + " || ".join(terms) + ")"
 
 
 # ----------------------------------------------------------------------------- expressions
 def _expr(e: ast.expr, env: dict[str, str]) -> str:
-    """Translate a boolean test over Nat counters / an Option Nat limit into a Lean Bool term."""
+    """A boolean test over a Nat counter `n` / an Option Nat `limit` as a Lean Bool term."""
     if isinstance(e, ast.BoolOp):
         op = " || " if isinstance(e.op, ast.Or) else " && "
         return "(" + op.join(_expr(v, env) for v in e.values) + ")"
     if isinstance(e, ast.UnaryOp) and isinstance(e.op, ast.Not):
         return f"(!{_expr(e.operand, env)})"
-    if isinstance(e, ast.Compare) and len(e.ops) == 1:
+    if isinstance(e, ast.Compare) and len(e.ops) > 1:  # a < b < c
+        parts, left = [], e.left
+        for op, right in zip(e.ops, e.comparators):
+            parts.append(_expr(ast.Compare(left=left, ops=[op], comparators=[right]), env))
+            left = right
+        return "(" + " && ".join(parts) + ")"
+    if isinstance(e, ast.Compare):
         l, r, op = e.left, e.comparators[0], e.ops[0]
-        ls = ast.unparse(l)
-        if isinstance(op, (ast.Is, ast.IsNot)) and isinstance(r, ast.Constant) and r.value is None and env.get(ls) == "limit":
-            return "limit.isNone" if isinstance(op, ast.Is) else "limit.isSome"
+        for a, b in ((l, r), (r, l)):
+            if isinstance(op, (ast.Is, ast.IsNot, ast.Eq, ast.NotEq)) and isinstance(b, ast.Constant) and b.value is None \
+                    and env.get(_u(a)) == "limit":
+                return "limit.isNone" if isinstance(op, (ast.Is, ast.Eq)) else "limit.isSome"
         sym = {ast.Lt: "<", ast.LtE: "≤", ast.Gt: ">", ast.GtE: "≥", ast.Eq: "=", ast.NotEq: "≠"}.get(type(op))
         if sym is None:
-            raise Bad(f"comparison {ast.unparse(e)}")
+            raise Bad(f"comparison {_u(e)}")
         return f"decide ({_atom(l, env)} {sym} {_atom(r, env)})"
-    raise Bad(f"unsupported test {ast.unparse(e)}")
+    if isinstance(e, ast.Constant) and isinstance(e.value, bool):
+        return "true" if e.value else "false"
+    raise Bad(f"unsupported test {_u(e)}")
 
 
 def _atom(e: ast.expr, env: dict[str, str]) -> str:
-    s = ast.unparse(e)
+    s = _u(e)
     if isinstance(e, ast.Constant) and isinstance(e.value, int) and not isinstance(e.value, bool) and e.value >= 0:
         return f"({e.value} : Int)"
     if env.get(s) == "n":
         return "(n : Int)"
     if env.get(s) == "limit":
-        # only reached when the limit is not None (Python would raise TypeError otherwise); `none` is
-        # mapped to -1 so that a dropped `is None` test shows up as "never restart", as in Python (TypeError
-        # is an Exception raised inside the handler: the task dies)
+        # only evaluated when the limit is not None (Python raises TypeError otherwise — an Exception inside the
+        # handler, the task dies): `none` is mapped to -1, i.e. "never restart"
         return "(match limit with | some l => (l : Int) | none => -1)"
     if isinstance(e, ast.BinOp) and isinstance(e.op, (ast.Add, ast.Sub)):
         return f"({_atom(e.left, env)} {'+' if isinstance(e.op, ast.Add) else '-'} {_atom(e.right, env)})"
@@ -98,218 +352,359 @@ def _actor(src: str) -> list[str]:
     delay_us = None
     limit = "missing"
     for n in actor.body:
-        if isinstance(n, ast.AnnAssign) and isinstance(n.target, ast.Name):
-            if n.target.id == "RESTART_DELAY":
+        tgt = n.target if isinstance(n, ast.AnnAssign) else (n.targets[0] if isinstance(n, ast.Assign) and len(n.targets) == 1 else None)
+        if isinstance(tgt, ast.Name) and n.value is not None:
+            if tgt.id == "RESTART_DELAY":
                 v = n.value
-                if not (isinstance(v, ast.Call) and ast.unparse(v.func) in ("timedelta", "datetime.timedelta")) or v.args:
+                if not (isinstance(v, ast.Call) and _u(v.func) in ("timedelta", "datetime.timedelta")) or v.args:
                     raise Bad("RESTART_DELAY is not timedelta(kw=…)")
                 unit = {"days": 86400_000_000, "hours": 3600_000_000, "minutes": 60_000_000, "seconds": 1_000_000,
                         "milliseconds": 1000, "microseconds": 1}
                 total = 0
                 for kw in v.keywords:
-                    val = ast.literal_eval(kw.value)
-                    q = val * unit[kw.arg]
+                    q = ast.literal_eval(kw.value) * unit[kw.arg]
                     if q != int(q):
                         raise Bad("RESTART_DELAY not a whole number of µs")
                     total += int(q)
                 delay_us = total
-            if n.target.id == "_restart_limit":
+            if tgt.id == "_restart_limit":
                 limit = ast.literal_eval(n.value)
     if delay_us is None or limit == "missing":
         raise Bad("RESTART_DELAY / _restart_limit not found")
-    if not (limit is None or (isinstance(limit, int) and limit >= 0)):
+    if not (limit is None or (isinstance(limit, int) and not isinstance(limit, bool) and limit >= 0)):
         raise Bad(f"_restart_limit default {limit!r}")
     out.append(f"/-- `Actor.RESTART_DELAY` in microseconds. -/\ndef restartDelayUs : Int := {delay_us}")
     out.append("/-- default of `Actor._restart_limit` (`none` = unlimited). -/\n"
                f"def defaultRestartLimit : Option Nat := {'none' if limit is None else f'some {limit}'}")
 
-    # _delay_if_restart: `if <test(iteration)>: … await asyncio.sleep(delay)`
+    # _delay_if_restart(it): under which condition is `await asyncio.sleep(RESTART_DELAY.total_seconds())` reached?
     d = _fn(actor, "_delay_if_restart")
-    body = _strip(d.body)
-    if len(body) != 1 or not isinstance(body[0], ast.If) or body[0].orelse:
-        raise Bad("_delay_if_restart: expected a single `if`")
     arg = d.args.args[1].arg
-    inner = _strip(body[0].body)
-    if not (len(inner) == 2 and ast.unparse(inner[0]) == "delay = self.RESTART_DELAY.total_seconds()"
-            and ast.unparse(inner[1]) == "await asyncio.sleep(delay)"):
-        raise Bad("_delay_if_restart: body is not `delay = RESTART_DELAY…; await asyncio.sleep(delay)`")
+    sleeping, other = [], []
+    for conds, acts in _paths(_normalise(d)):
+        acts = [a for a in acts if not (isinstance(a, ast.Return) and a.value is None)]
+        srcs = [_u(a) for a in acts]
+        if srcs == ["await asyncio.sleep(self.RESTART_DELAY.total_seconds())"]:
+            sleeping.append(conds)
+        elif not srcs:
+            other.append(conds)
+        else:
+            raise Bad(f"_delay_if_restart: unexpected actions {srcs}")
+    if not sleeping:
+        raise Bad("_delay_if_restart: never sleeps for RESTART_DELAY")
     out.append("/-- `_delay_if_restart`: is the delay awaited before iteration `n`? -/\n"
-               f"def delayApplies (n : Nat) : Bool := {_expr(body[0].test, {arg: 'n'})}")
+               f"def delayApplies (n : Nat) : Bool := {_dnf(sleeping, lambda e: _expr(e, {arg: 'n'}))}")
 
     # _run_loop
     rl = _fn(actor, "_run_loop")
-    body = _strip(rl.body)
-    if not (len(body) == 2 and isinstance(body[0], ast.Assign) and len(body[0].targets) == 1
-            and isinstance(body[0].targets[0], ast.Name) and ast.unparse(body[0].value) == "0"
-            and isinstance(body[1], ast.While) and ast.unparse(body[1].test) == "True"):
-        raise Bad("_run_loop: expected `<counter> = 0; while True:`")
-    ctr = body[0].targets[0].id  # `n_restarts` (a local: its name does not matter)
-    wbody = _strip(body[1].body)
-    if not (len(wbody) == 2 and isinstance(wbody[0], ast.Try)):
-        raise Bad("_run_loop: expected `try: … ; <stmt>` in the loop")
-    after = ast.unparse(wbody[1])
-    if after != "break":
-        raise Bad(f"_run_loop: statement after the try is {after!r} (expected `break`)")
+    body = _normalise(rl)
+    loops = [s for s in body if isinstance(s, ast.While)]
+    if len(loops) != 1 or _u(loops[0].test) != "True" or loops[0].orelse:
+        raise Bad("_run_loop: expected one `while True:`")
+    loop = loops[0]
+    after_loop = body[body.index(loop) + 1:]
+    if any(not (isinstance(s, ast.Return) and s.value is None) for s in after_loop):
+        raise Bad("_run_loop: statements after the loop")
+    wbody = loop.body
+    if not wbody or not isinstance(wbody[0], ast.Try):
+        raise Bad("_run_loop: the loop does not start with the try")
     tr = wbody[0]
-    tb = [ast.unparse(s) for s in _strip(tr.body)]
-    if tb != [f"await self._delay_if_restart({ctr})", "await self._run()"] or tr.orelse or tr.finalbody:
+    if tr.orelse or tr.finalbody:
+        raise Bad("_run_loop: try/else/finally not understood")
+    tb = [_u(s) for s in tr.body]
+    if not (len(tb) == 2 and tb[1] == "await self._run()" and isinstance(tr.body[0], ast.Expr)
+            and isinstance(tr.body[0].value, ast.Await) and isinstance(tr.body[0].value.value, ast.Call)
+            and _u(tr.body[0].value.value.func) == "self._delay_if_restart" and len(tr.body[0].value.value.args) == 1
+            and isinstance(tr.body[0].value.value.args[0], ast.Name)):
         raise Bad(f"_run_loop: try body is {tb}")
+    ctr = tr.body[0].value.value.args[0].id       # the restart counter: whatever local is passed to the delay
+    pre = body[: body.index(loop)]
+    inits = [s for s in pre if _simple_target(s) == ctr]
+    if len(inits) != 1 or _u(inits[0].value) != "0" or len(pre) != 1:
+        raise Bad("_run_loop: the restart counter is not initialised to 0 right before the loop")
+    # a normal return of _run() must leave the loop
+    tail = wbody[1:]
+    for conds, acts in _paths(tail):
+        if [type(a) for a in acts] not in ([ast.Break], [ast.Return]):
+            raise Bad(f"_run_loop: after a normal return of _run(): {[_u(a) for a in acts]}")
     handlers = []
     allowed = None
     for h in tr.handlers:
-        ty = ast.unparse(h.type) if h.type is not None else "BaseException"
-        ty = {"asyncio.CancelledError": "CancelledError"}.get(ty, ty)
+        ty = _u(h.type) if h.type is not None else "BaseException"
+        ty = {"asyncio.CancelledError": "CancelledError", "asyncio.exceptions.CancelledError": "CancelledError"}.get(ty, ty)
         if ty not in ("CancelledError", "Exception", "BaseException"):
             raise Bad(f"_run_loop: handler for {ty}")
-        hb = _strip(h.body)
-        if len(hb) == 1 and ast.unparse(hb[0]) == "raise":
-            handlers.append((ty, "reraise"))
-        elif (len(hb) == 2 and isinstance(hb[0], ast.If) and not hb[0].orelse and ast.unparse(hb[1]) == "raise"
-              and [ast.unparse(s) for s in _strip(hb[0].body)] == [f"{ctr} += 1", "continue"]):
+        restart, reraise = [], []
+        for conds, acts in _paths(h.body):
+            srcs = [_u(a) for a in acts]
+            if srcs == ["raise"]:
+                reraise.append(conds)
+            elif srcs in ([f"{ctr} += 1", "continue"], [f"{ctr} = {ctr} + 1", "continue"]):
+                restart.append(conds)
+            else:
+                raise Bad(f"_run_loop: handler for {ty}: path does {srcs}")
+        if restart:
             if allowed is not None:
                 raise Bad("_run_loop: two restarting handlers")
-            allowed = _expr(hb[0].test, {ctr: "n", "self._restart_limit": "limit"})
+            allowed = _dnf(restart, lambda e: _expr(e, {ctr: "n", "self._restart_limit": "limit"}))
             handlers.append((ty, "restartOrReraise"))
         else:
-            raise Bad(f"_run_loop: unrecognised handler body for {ty}")
+            handlers.append((ty, "reraise"))
     if allowed is None:
         allowed = "false"
-    out.append("/-- the guard of the restart in `_run_loop` (`n` = `n_restarts`). -/\n"
+    out.append("/-- the condition under which `_run_loop` restarts after an `Exception` (`n` = the restart counter). -/\n"
                f"def restartAllowed (limit : Option Nat) (n : Nat) : Bool := {allowed}")
     out.append("inductive Action | reraise | restartOrReraise\nderiving DecidableEq, Repr")
     hs = ", ".join(f'("{t}", Action.{a})' for t, a in handlers)
     out.append("/-- the `except` clauses of `_run_loop`, in source order. -/\n"
                f"def handlers : List (String × Action) := [{hs}]")
 
-    # start()
-    st = [ast.unparse(s) for s in _strip(_fn(actor, "start").body)]
-    guard = "if self.is_running:\n    return"
-    if st == [guard, "self._tasks.clear()", "self._tasks.add(asyncio.create_task(self._run_loop()))"]:
-        start_guarded = True
-    elif st == ["self._tasks.clear()", "self._tasks.add(asyncio.create_task(self._run_loop()))"]:
-        start_guarded = False
-    else:
-        raise Bad(f"Actor.start: unrecognised body {st}")
+    # start(): [clear, add(create_task(_run_loop()))] under `not is_running` (or unconditionally)
+    guarded = None
+    for conds, acts in _paths(_normalise(_fn(actor, "start"))):
+        srcs = [_u(a) for a in acts if not (isinstance(a, ast.Return) and a.value is None)]
+        if not srcs:
+            if [( _u(e), pol) for e, pol in conds] != [("self.is_running", True)]:
+                raise Bad("Actor.start: does nothing under a condition other than `is_running`")
+        elif srcs == ["self._tasks.clear()", "self._tasks.add(asyncio.create_task(self._run_loop()))"]:
+            cs = [(_u(e), pol) for e, pol in conds]
+            if cs == [("self.is_running", False)]:
+                guarded = True
+            elif not cs:
+                guarded = False
+            else:
+                raise Bad(f"Actor.start: starts under {cs}")
+        else:
+            raise Bad(f"Actor.start: unrecognised actions {srcs}")
+    if guarded is None:
+        raise Bad("Actor.start: never starts the run loop")
     out.append("/-- `Actor.start()` returns early while `is_running`. -/\n"
-               f"def startGuarded : Bool := {'true' if start_guarded else 'false'}")
+               f"def startGuarded : Bool := {'true' if guarded else 'false'}")
     return out
 
 
 # ----------------------------------------------------------------------------- _background_service.py
-def _find_loop(fn: ast.AsyncFunctionDef) -> ast.While | None:
-    for s in fn.body:
-        if isinstance(s, ast.While) and ast.unparse(s.test) == "self._tasks":
+def _find_loop(stmts: list[ast.stmt]) -> ast.While | None:
+    for s in stmts:
+        if isinstance(s, ast.While) and _u(s.test) == "self._tasks":
             return s
     return None
 
 
-def _contains_raise_group(stmts: list[ast.stmt]) -> bool:
-    for s in stmts:
-        for n in ast.walk(s):
-            if isinstance(n, ast.Raise) and n.exc is not None and "BaseExceptionGroup" in ast.unparse(n.exc):
-                return True
-    return False
+def _is_result_helper(mod: ast.Module, name: str) -> bool:
+    """`def h(t): try: [_ =] t.result() except BaseException as e: return e; return None`"""
+    try:
+        fn = _fn(mod, name)
+    except Bad:
+        return False
+    b = _normalise(fn)
+    arg = fn.args.args[0].arg
+    if not b or not isinstance(b[0], ast.Try) or len(b[0].handlers) != 1:
+        return False
+    t = b[0]
+    h = t.handlers[0]
+    ok_body = [_u(x) for x in t.body] in ([f"_ = {arg}.result()"], [f"{arg}.result()"])
+    ok_h = _u(h.type) == "BaseException" and h.name and [_u(x) for x in h.body] == [f"return {h.name}"]
+    ok_tail = [_u(x) for x in b[1:]] in ([], ["return None"], ["return"])
+    return bool(ok_body and ok_h and ok_tail and not t.orelse and not t.finalbody)
 
 
-def _assigns_empty_list(stmts: list[ast.stmt]) -> bool:
-    for s in stmts:
-        if isinstance(s, (ast.Assign, ast.AnnAssign)) and s.value is not None and ast.unparse(s.value) == "[]":
-            return True
-    return False
+def _collects(forstmt: ast.For, mod: ast.Module) -> str | None:
+    """`for t in D: <append the exception of t.result() to L>` -> L."""
+    if not isinstance(forstmt.target, ast.Name) or forstmt.orelse:
+        return None
+    t = forstmt.target.id
+    b = forstmt.body
+    if len(b) == 1 and isinstance(b[0], ast.Try) and len(b[0].handlers) == 1 and not b[0].orelse and not b[0].finalbody:
+        h = b[0].handlers[0]
+        if [_u(x) for x in b[0].body] in ([f"_ = {t}.result()"], [f"{t}.result()"]) and h.type is not None \
+                and _u(h.type) == "BaseException" and h.name and len(h.body) == 1:
+            c = h.body[0]
+            if isinstance(c, ast.Expr) and isinstance(c.value, ast.Call) and isinstance(c.value.func, ast.Attribute) \
+                    and c.value.func.attr == "append" and [_u(a) for a in c.value.args] == [h.name] \
+                    and isinstance(c.value.func.value, ast.Name):
+                return c.value.func.value.id
+    # via a trivially extracted helper: `if helper(t) is not None: L.append(helper(t))` (after inlining) or with a local
+    ps = _paths(b)
+    app = [(c, a) for c, a in ps if a]
+    if len(app) == 1 and len(ps) == 2:
+        conds, acts = app[0]
+        if len(acts) == 1 and isinstance(acts[0], ast.Expr) and isinstance(acts[0].value, ast.Call) \
+                and isinstance(acts[0].value.func, ast.Attribute) and acts[0].value.func.attr == "append" \
+                and isinstance(acts[0].value.func.value, ast.Name) and len(acts[0].value.args) == 1:
+            arg = acts[0].value.args[0]
+            call = arg
+            pre_assign = None
+            if isinstance(arg, ast.Name):
+                return None
+            if isinstance(call, ast.Call) and isinstance(call.func, ast.Name) and [_u(a) for a in call.args] == [t] \
+                    and _is_result_helper(mod, call.func.id) and len(conds) == 1:
+                e, pol = conds[0]
+                if (_u(e), pol) in ((f"{_u(call)} is not None", True), (f"{_u(call)} is None", False)):
+                    return acts[0].value.func.value.id
+    return None
 
 
 def _service(src: str) -> list[str]:
     tree = ast.parse(src)
     svc = _cls(tree, "BackgroundService")
-    wait = _fn(svc, "wait")
-    stop = _fn(svc, "stop")
-    loop_fn = wait
+    wait_b = _normalise(_fn(svc, "wait"))
+    loop_fn = _fn(svc, "wait")
+    loop_body = wait_b
     helper = None
-    if _find_loop(wait) is None:
-        body = _strip(wait.body)
-        if not (len(body) == 1 and isinstance(body[0], ast.Expr) and isinstance(body[0].value, ast.Await)
-                and isinstance(body[0].value.value, ast.Call) and not body[0].value.value.args
-                and not body[0].value.value.keywords
-                and ast.unparse(body[0].value.value.func).startswith("self.")):
+    if _find_loop(wait_b) is None:
+        if not (len(wait_b) == 1 and isinstance(wait_b[0], ast.Expr) and isinstance(wait_b[0].value, ast.Await)
+                and isinstance(wait_b[0].value.value, ast.Call) and not wait_b[0].value.value.args
+                and not wait_b[0].value.value.keywords and _u(wait_b[0].value.value.func).startswith("self.")):
             raise Bad("wait(): neither the batch loop nor a plain `await self.<helper>()`")
-        helper = ast.unparse(body[0].value.value.func)[5:]
+        helper = _u(wait_b[0].value.value.func)[5:]
         loop_fn = _fn(svc, helper)
-    loop = _find_loop(loop_fn)
-    if loop is None:
+        loop_body = _inline_result_local(_normalise(loop_fn))
+    loop = _find_loop(loop_body)
+    if loop is None or loop.orelse:
         raise Bad("batch loop `while self._tasks:` not found")
-    pre = loop_fn.body[: loop_fn.body.index(loop)]
-    post = loop_fn.body[loop_fn.body.index(loop) + 1:]
-    in_loop_raise = _contains_raise_group(loop.body)
-    after_raise = _contains_raise_group(post)
-    in_loop_init = _assigns_empty_list(loop.body)
-    pre_init = _assigns_empty_list(pre)
-    if in_loop_raise and in_loop_init and not after_raise and not pre_init:
+    pre = loop_body[: loop_body.index(loop)]
+    post = loop_body[loop_body.index(loop) + 1:]
+    # roles inside the loop
+    waits = [s for s in loop.body if isinstance(s, ast.Assign) and _u(s.value) == "await asyncio.wait(self._tasks)"
+             and isinstance(s.targets[0], ast.Tuple) and len(s.targets[0].elts) == 2]
+    if len(waits) != 1:
+        raise Bad("wait loop: `<done>, <pending> = await asyncio.wait(self._tasks)` not found")
+    iw = loop.body.index(waits[0])
+    done = _u(waits[0].targets[0].elts[0])
+    removes = [s for s in loop.body[iw + 1:] if _u(s) in (f"self._tasks = self._tasks - {done}", f"self._tasks -= {done}",
+                                                          f"self._tasks = self._tasks.difference({done})",
+                                                          f"self._tasks.difference_update({done})")]
+    if len(removes) != 1:
+        raise Bad("wait loop: the finished tasks are not removed from `_tasks` after the wait")
+    fors = [s for s in loop.body[iw + 1:] if isinstance(s, ast.For) and _u(s.iter) == done]
+    if len(fors) != 1:
+        raise Bad("wait loop: no loop over the finished tasks")
+    lst = _collects(fors[0], tree)
+    if lst is None:
+        raise Bad("wait loop: cannot see that every exception of `task.result()` is appended to one list")
+
+    def is_init(s: ast.stmt) -> bool:
+        return _simple_target(s) == lst and _u(s.value) == "[]"
+
+    def raises_group(stmts: list[ast.stmt]) -> bool:
+        for conds, acts in _paths(stmts):
+            for a in acts:
+                if isinstance(a, ast.Raise) and a.exc is not None and isinstance(a.exc, ast.Call) \
+                        and _u(a.exc.func) == "BaseExceptionGroup" and len(a.exc.args) == 2 and _u(a.exc.args[1]) == lst:
+                    if [(_u(e), pol) for e, pol in conds] != [(lst, True)]:
+                        raise Bad("wait loop: the group is not raised under `if <list>:`")
+                    return True
+        return False
+
+    known = {id(waits[0]), id(removes[0]), id(fors[0])}
+    in_init = [s for s in loop.body if is_init(s)]
+    rest_in_loop = [s for s in loop.body if id(s) not in known and not is_init(s)]
+    in_raise = raises_group([s for s in rest_in_loop if isinstance(s, ast.If) and loop.body.index(s) > iw])
+    pre_init = any(is_init(s) for s in pre)
+    post_raise = raises_group(post)
+    if in_raise and in_init and loop.body.index(in_init[0]) < loop.body.index(fors[0]) and not post_raise and not pre_init:
         all_rounds = False
-    elif after_raise and pre_init and not in_loop_raise and not in_loop_init:
+    elif post_raise and pre_init and not in_raise and not in_init:
         all_rounds = True
     else:
         raise Bad("wait loop: cannot tell whether exceptions are raised per batch or after all rounds")
-    lsrc = [ast.unparse(s) for s in _strip(loop.body)]
-    need = ["done, pending = await asyncio.wait(self._tasks)", "self._tasks = self._tasks - done"]
-    if not all(any(x == l for l in lsrc) for x in need) or lsrc.index(need[0]) > lsrc.index(need[1]):
-        raise Bad("wait loop: `asyncio.wait(self._tasks)` / `self._tasks = self._tasks - done` not found in order")
     # cancel in every round?  `if <flag>: self.cancel(msg)` before the asyncio.wait
-    round_cancel_flag = None
-    for s in loop.body[: [ast.unparse(x) for x in loop.body].index(need[0])]:
-        if isinstance(s, ast.If) and not s.orelse and [ast.unparse(x) for x in s.body] == ["self.cancel(msg)"] \
-                and isinstance(s.test, ast.Name):
-            round_cancel_flag = s.test.id
-    pre_cancel_flag = None
-    for s in pre:
-        if isinstance(s, ast.If) and not s.orelse and [ast.unparse(x) for x in s.body] == ["self.cancel(msg)"] \
-                and isinstance(s.test, ast.Name):
-            pre_cancel_flag = s.test.id
-    # stop()
-    sb = _strip(stop.body)
-    ssrc = [ast.unparse(s) for s in sb]
-    if not ssrc or ssrc[0] != "if not self._tasks:\n    return":
-        raise Bad("stop(): early return on empty `_tasks` not found")
-    cancel_at_call = "self.cancel(msg)" in ssrc
-    tr = [s for s in sb if isinstance(s, ast.Try)]
-    if len(tr) != 1:
-        raise Bad("stop(): expected one try")
-    tb = _strip(tr[0].body)
-    if not (len(tb) == 1 and isinstance(tb[0], ast.Expr) and isinstance(tb[0].value, ast.Await)
-            and isinstance(tb[0].value.value, ast.Call)):
+    def cancel_flag(stmts: list[ast.stmt]) -> str | None:
+        for s in stmts:
+            if isinstance(s, ast.If) and not s.orelse and [_u(x) for x in s.body] == ["self.cancel(msg)"] and isinstance(s.test, ast.Name):
+                return s.test.id
+        return None
+
+    round_flag = cancel_flag(loop.body[:iw])
+    pre_flag = cancel_flag(pre)
+    other = [s for s in rest_in_loop if not (isinstance(s, ast.If) and (cancel_flag([s]) or loop.body.index(s) > iw))]
+    if other:
+        raise Bad(f"wait loop: unexpected statement {_u(other[0])[:60]}")
+
+    # stop(): nothing when `_tasks` is empty; else cancel + wait, re-raise the group minus CancelledError
+    stop = _fn(svc, "stop")
+    sb = _normalise(stop)
+    work = None
+    for conds, acts in _paths(sb):
+        acts = [a for a in acts if not (isinstance(a, ast.Return) and a.value is None)]
+        cs = [(_u(e), pol) for e, pol in conds]
+        if not acts:
+            if cs != [("self._tasks", False)]:
+                raise Bad(f"stop(): returns early under {cs}")
+        else:
+            if cs not in ([("self._tasks", True)],):
+                raise Bad(f"stop(): works under {cs}")
+            work = acts
+    if work is None:
+        raise Bad("stop(): never waits")
+    cancel_at_call = False
+    if work and _u(work[0]) == "self.cancel(msg)":
+        cancel_at_call = True
+        work = work[1:]
+    if not (len(work) == 1 and isinstance(work[0], ast.Try) and not work[0].orelse and not work[0].finalbody):
+        raise Bad("stop(): expected `[self.cancel(msg);] try: await …`")
+    tr = work[0]
+    if not (len(tr.body) == 1 and isinstance(tr.body[0], ast.Expr) and isinstance(tr.body[0].value, ast.Await)
+            and isinstance(tr.body[0].value.value, ast.Call)):
         raise Bad("stop(): try body is not a single await")
-    call = tb[0].value.value
-    callee = ast.unparse(call.func)
-    kw = {k.arg: ast.unparse(k.value) for k in call.keywords}
+    call = tr.body[0].value.value
+    callee = _u(call.func)
+    kw = {k.arg: _u(k.value) for k in call.keywords}
+    cancel_rounds = False
     if callee == "self.wait" and not call.args and not kw:
-        cancel_rounds = False
-        if helper is not None and round_cancel_flag is not None:
-            pass  # wait() passes no flag: default must be False
+        pass
     elif helper is not None and callee == f"self.{helper}" and not call.args:
-        cancel_rounds = round_cancel_flag is not None and kw.get(round_cancel_flag) == "True"
-        if pre_cancel_flag is not None and kw.get(pre_cancel_flag) == "True":
+        cancel_rounds = round_flag is not None and kw.get(round_flag) == "True"
+        if pre_flag is not None and kw.get(pre_flag) == "True":
             cancel_at_call = True
     else:
-        raise Bad(f"stop(): awaits {ast.unparse(call)}")
-    for flag in {round_cancel_flag, pre_cancel_flag} - {None}:
-        round_cancel_flag_ = flag
-        # the flag must default to False so that wait() never cancels
-        args = loop_fn.args
-        names = [a.arg for a in args.kwonlyargs]
-        if round_cancel_flag_ not in names or ast.unparse(args.kw_defaults[names.index(round_cancel_flag_)]) != "False":
-            raise Bad("round-cancel flag has no `False` default")
+        raise Bad(f"stop(): awaits {_u(call)}")
+    for flag in {round_flag, pre_flag} - {None}:
+        names = [a.arg for a in loop_fn.args.kwonlyargs]
+        if flag not in names or _u(loop_fn.args.kw_defaults[names.index(flag)]) != "False":
+            raise Bad("cancel flag of the wait helper has no `False` default")   # wait() must never cancel
     if not cancel_at_call and not cancel_rounds:
         raise Bad("stop(): no cancellation found")
-    h = tr[0].handlers
-    if not (len(h) == 1 and ast.unparse(h[0].type) == "BaseExceptionGroup"
-            and "split(asyncio.CancelledError)" in ast.unparse(h[0]) and "raise rest" in ast.unparse(h[0])):
-        raise Bad("stop(): handler does not split CancelledError out of the group")
+    if len(tr.handlers) != 1 or _u(tr.handlers[0].type) != "BaseExceptionGroup" or not tr.handlers[0].name:
+        raise Bad("stop(): expected one `except BaseExceptionGroup as g`")
+    g = tr.handlers[0].name
+    rest = f"{g}.split(asyncio.CancelledError)[1]"
+    seen_raise = False
+    for conds, acts in _paths(tr.handlers[0].body):
+        acts = [a for a in acts if not (isinstance(a, ast.Return) and a.value is None)]
+        cs = [(_u(e), pol) for e, pol in conds]
+        if not acts:
+            if cs not in ([(f"{rest} is not None", False)], [(f"{rest} is None", True)]):
+                raise Bad(f"stop(): swallows the group under {cs}")
+        elif [_u(a) for a in acts] == [f"raise {rest}"] and cs in ([(f"{rest} is not None", True)], [(f"{rest} is None", False)]):
+            seen_raise = True
+        else:
+            raise Bad(f"stop(): handler does {[_u(a) for a in acts]} under {cs}")
+    if not seen_raise:
+        raise Bad("stop(): the group minus CancelledError is never re-raised")
+
     # is_running / cancel
-    isr = [ast.unparse(s) for s in _strip(_fn(svc, "is_running").body)]
-    if isr != ["return any((not task.done() for task in self._tasks))"]:
-        raise Bad(f"is_running: {isr}")
-    can = [ast.unparse(s) for s in _strip(_fn(svc, "cancel").body)]
-    if can != ["for task in self._tasks:\n    task.cancel(msg)"]:
-        raise Bad(f"cancel(): {can}")
+    isr = _normalise(_fn(svc, "is_running"))
+    ok = False
+    if len(isr) == 1 and isinstance(isr[0], ast.Return) and isinstance(isr[0].value, ast.Call) and _u(isr[0].value.func) == "any" \
+            and len(isr[0].value.args) == 1 and isinstance(isr[0].value.args[0], (ast.GeneratorExp, ast.ListComp)):
+        ge = isr[0].value.args[0]
+        if len(ge.generators) == 1 and not ge.generators[0].ifs and _u(ge.generators[0].iter) == "self._tasks" \
+                and _u(ge.elt) == f"not {_u(ge.generators[0].target)}.done()":
+            ok = True
+    elif len(isr) == 2 and isinstance(isr[0], ast.For) and _u(isr[0].iter) == "self._tasks" and not isr[0].orelse \
+            and _u(isr[1]) == "return False" and isinstance(isr[0].target, ast.Name):
+        t = isr[0].target.id
+        ps = [([(_u(e), pol) for e, pol in c], [_u(x) for x in a]) for c, a in _paths(isr[0].body)]
+        if sorted(ps) == sorted([([(f"{t}.done()", False)], ["return True"]), ([(f"{t}.done()", True)], [])]):
+            ok = True
+    if not ok:
+        raise Bad("is_running: not `any(not task.done() for task in self._tasks)`")
+    can = _normalise(_fn(svc, "cancel"))
+    if not (len(can) == 1 and isinstance(can[0], ast.For) and _u(can[0].iter) == "self._tasks" and isinstance(can[0].target, ast.Name)
+            and [_u(x) for x in can[0].body] == [f"{can[0].target.id}.cancel(msg)"] and not can[0].orelse):
+        raise Bad("cancel(): not `for task in self._tasks: task.cancel(msg)`")
     return [
         "/-- `wait()` raises its group only after the loop over batches has ended (all rounds). -/\n"
         f"def waitAllRounds : Bool := {'true' if all_rounds else 'false'}",
@@ -320,63 +715,76 @@ def _service(src: str) -> list[str]:
     ]
 
 
+def _inline_result_local(stmts: list[ast.stmt]) -> list[ast.stmt]:
+    """Inside `for t in D:` bodies, inline `e = helper(t)` (assigned once per iteration) into its uses."""
+    out = []
+    for s in stmts:
+        s = _map_blocks(s, _inline_result_local)
+        if isinstance(s, ast.For) and s.body and _simple_target(s.body[0]) and isinstance(s.body[0].value, ast.Call) \
+                and isinstance(s.body[0].value.func, ast.Name):
+            name, val = _simple_target(s.body[0]), s.body[0].value
+            mod = ast.Module(body=s.body[1:], type_ignores=[])
+            s.body = _Subst(name, val).visit(mod).body
+        out.append(s)
+    return out
+
+
 # ----------------------------------------------------------------------------- _internal/_asyncio.py
 def _guard(e: ast.expr, task: str) -> str:
-    """The early-return test of cancel_and_await as a Lean Bool over `done : Bool` and `cancelling : Nat`."""
+    """A test of cancel_and_await as a Lean Bool over `done : Bool` and `cancelling : Nat`."""
     if isinstance(e, ast.BoolOp):
         op = " || " if isinstance(e.op, ast.Or) else " && "
         return "(" + op.join(_guard(v, task) for v in e.values) + ")"
     if isinstance(e, ast.UnaryOp) and isinstance(e.op, ast.Not):
         return f"(!{_guard(e.operand, task)})"
-    s = ast.unparse(e)
+    s = _u(e)
     if s == f"{task}.done()":
         return "done"
     if s == f"{task}.cancelling()":          # truthiness of an int
         return "decide (cancelling > 0)"
-    if s == f"{task}.cancelled()":
-        raise Bad("guard uses task.cancelled(): not modelled")
-    if isinstance(e, ast.Compare) and len(e.ops) == 1 and ast.unparse(e.left) == f"{task}.cancelling()" \
+    if isinstance(e, ast.Compare) and len(e.ops) == 1 and _u(e.left) == f"{task}.cancelling()" \
             and isinstance(e.comparators[0], ast.Constant) and isinstance(e.comparators[0].value, int):
         sym = {ast.Lt: "<", ast.LtE: "≤", ast.Gt: ">", ast.GtE: "≥", ast.Eq: "=", ast.NotEq: "≠"}.get(type(e.ops[0]))
         if sym:
             return f"decide (cancelling {sym} {e.comparators[0].value})"
     if isinstance(e, ast.Constant) and isinstance(e.value, bool):
         return "true" if e.value else "false"
-    raise Bad(f"cancel_and_await guard: unsupported {s}")
+    raise Bad(f"cancel_and_await: unsupported test {s}")
 
 
 def _cancel_and_await(src: str) -> list[str]:
     tree = ast.parse(src)
-    fn = next((n for n in tree.body if isinstance(n, ast.AsyncFunctionDef) and n.name == "cancel_and_await"), None)
-    if fn is None:
-        raise Bad("cancel_and_await not found")
+    fn = _fn(tree, "cancel_and_await")
     task = fn.args.args[0].arg
-    body = _strip(fn.body)
-    guard = "false"
-    if body and isinstance(body[0], ast.If):
-        g = body[0]
-        if g.orelse or [ast.unparse(x) for x in g.body] != ["return"]:
-            raise Bad("cancel_and_await: first `if` is not an early return")
-        guard = _guard(g.test, task)
-        body = body[1:]
+    early, work = [], []
+    for conds, acts in _paths(_normalise(fn)):
+        acts = [a for a in acts if not (isinstance(a, ast.Return) and a.value is None)]
+        (work if acts else early).append((conds, acts))
+    if not work:
+        raise Bad("cancel_and_await: never awaits the task")
+    shapes = {tuple(_u(a) for a in acts) for _, acts in work}
+    if len(shapes) != 1:
+        raise Bad("cancel_and_await: different work on different paths")
+    acts = work[0][1]
     cancels = False
-    if body and ast.unparse(body[0]) == f"{task}.cancel()":
+    if acts and _u(acts[0]) == f"{task}.cancel()":
         cancels = True
-        body = body[1:]
-    if not (len(body) == 1 and isinstance(body[0], ast.Try)):
-        raise Bad("cancel_and_await: expected `try: await task except CancelledError: pass` at the end")
-    tr = body[0]
-    if [ast.unparse(x) for x in tr.body] != [f"await {task}"] or tr.orelse or tr.finalbody:
+        acts = acts[1:]
+    if not (len(acts) == 1 and isinstance(acts[0], ast.Try)):
+        raise Bad("cancel_and_await: expected `[task.cancel();] try: await task except CancelledError: pass`")
+    tr = acts[0]
+    if [_u(x) for x in tr.body] != [f"await {task}"] or tr.orelse or tr.finalbody:
         raise Bad("cancel_and_await: try body is not `await task`")
     swallow = False
     for h in tr.handlers:
-        ty = ast.unparse(h.type) if h.type is not None else "BaseException"
-        if ty in ("asyncio.CancelledError", "CancelledError") and [ast.unparse(x) for x in h.body] == ["pass"]:
+        ty = _u(h.type) if h.type is not None else "BaseException"
+        if ty in ("asyncio.CancelledError", "CancelledError") and not h.body:
             swallow = True
         else:
             raise Bad(f"cancel_and_await: handler for {ty} not recognised")
+    guard = _dnf([c for c, _ in early], lambda e: _guard(e, task))
     return [
-        "/-- `cancel_and_await`: the test of its early `return` (`done` = `task.done()`, `cancelling` = `task.cancelling()`). -/\n"
+        "/-- `cancel_and_await`: the condition of its early return (`done` = `task.done()`, `cancelling` = `task.cancelling()`). -/\n"
         f"def caEarlyReturn (done : Bool) (cancelling : Nat) : Bool := {guard}",
         f"/-- `cancel_and_await` calls `task.cancel()` before awaiting. -/\ndef caCancels : Bool := {'true' if cancels else 'false'}",
         "/-- `await task` inside `cancel_and_await` swallows `CancelledError` (and nothing else). -/\n"
